@@ -34,6 +34,8 @@ func StartDriver(path string) (*Driver, error) {
 }
 
 type Reply struct {
+	Kind  string // reply | need | skip
+	Need  string // the residual query (s-expression) when Kind == need
 	Model string
 	Agree bool
 	Spec  string // holds | fails | na
@@ -58,7 +60,13 @@ func (d *Driver) Ask(line string) (Reply, error) {
 	if strings.HasPrefix(raw, "ERR") {
 		return Reply{}, fmt.Errorf("driver rejected request: %s (request %.300s)", raw, line)
 	}
-	r := Reply{Raw: raw}
+	if strings.HasPrefix(raw, "NEED ") {
+		return Reply{Kind: "need", Need: raw[5:], Raw: raw}, nil
+	}
+	if strings.HasPrefix(raw, "SKIP ") {
+		return Reply{Kind: "skip", Raw: raw, Scope: "out:unmodelled:" + strings.ReplaceAll(raw[5:], " ", "-"), Spec: "na", Agree: true}, nil
+	}
+	r := Reply{Raw: raw, Kind: "reply"}
 	for _, f := range strings.Split(raw, "\t") {
 		switch {
 		case strings.HasPrefix(f, "M="):
